@@ -177,6 +177,8 @@ def _header_matches(header: str, type_name: str, trait_name):
         return False
     if trait_name is None:
         return tr is None
+    if tr is None:
+        return False
     tr_n = " ".join(tr.split())
     want = " ".join(trait_name.split())
     return tr_n == want or re.sub(r"<.*$", "", tr_n).split("::")[-1] == want
